@@ -3,6 +3,7 @@ From Cctp Require Import Lib.Bytes Lib.SMap Lib.Text Lib.Keccak Lib.Paginate.
 From Cctp Require Import Model.Codec Model.State Model.Ledger Model.Handlers Model.Chain Model.Queries.
 From Cctp Require Import Proofs.MonadFacts Proofs.StoreFacts Proofs.PaginateFacts Proofs.RegistryFacts Proofs.AdminFacts.
 From Cctp Require Import Gen.GenLib Gen.Consts Gen.CheckKeys.
+From Cctp Require Import Gen.GoH_LinkTokenPair Gen.GoH_UnlinkTokenPair Gen.GoH_AddRemoteTokenMessenger Gen.GoH_RemoveRemoteTokenMessenger Gen.GoH_SetMaxBurnAmountPerMessage Gen.GoH_UpdateMaxMessageBodySize.
 
 (* ---- the map laws: adding creates exactly one entry, removal deletes exactly that entry, distinct keys
    never interfere (for the ordered map that stands for each collection) ---- *)
@@ -162,6 +163,16 @@ Theorem C19_store_keys_prefix_free :
   (forallb (fun k => negb (String.eqb k "")) full_keys && pairwise (fun a b => negb (prefixb a b)) full_keys)%bool = true.
 Proof. exact store_keys_prefix_free. Qed.
 
+(* The registry and scalar handlers as translated from the Go source are the model handlers (go_X_ok: forall e request h, eq_or_unmodelled (go_X e request h) (handler e (X request) h): same result and same state wherever the model gives a verdict at all, i.e. except on denominations outside the character set the model folds; for the two helpers the right-hand side is send_message / deposit_for_burn). The statement is about the Gallina program that tools/goextract TRANSLATED from the Go source of /repo on this run (Gen/GoH_*.v, Gen/GoF_*.v; meaning of the Go constructs: Gen/GoSem.v). For a function the translator could not read the conjunct is True (Gen/<file> names the reason, the evidence lists it) and the tie for it is the differential execution alone. *)
+Theorem C19_go_registry_handlers_are_the_model :
+  go_LinkTokenPair_ok /\
+  go_UnlinkTokenPair_ok /\
+  go_AddRemoteTokenMessenger_ok /\
+  go_RemoveRemoteTokenMessenger_ok /\
+  go_SetMaxBurnAmountPerMessage_ok /\
+  go_UpdateMaxMessageBodySize_ok.
+Proof. split; [exact go_LinkTokenPair_ok_proof|]. split; [exact go_UnlinkTokenPair_ok_proof|]. split; [exact go_AddRemoteTokenMessenger_ok_proof|]. split; [exact go_RemoveRemoteTokenMessenger_ok_proof|]. split; [exact go_SetMaxBurnAmountPerMessage_ok_proof|]. exact go_UpdateMaxMessageBodySize_ok_proof. Qed.
+
 Print Assumptions C19_map_laws.
 Print Assumptions C19_store_keys_prefix_free.
 Print Assumptions C19_enable_attester.
@@ -181,3 +192,4 @@ Print Assumptions C19_key_page.
 Print Assumptions C19_pages_cover_key_mode.
 Print Assumptions C19_pages_cover_offset_mode.
 Print Assumptions C19_collections_are_sorted_with_nonempty_keys.
+Print Assumptions C19_go_registry_handlers_are_the_model.
